@@ -81,16 +81,6 @@ Proof.
   - left. apply Hkeep; auto.
 Qed.
 
-Lemma not_end_cancel s : is_end_status s = false -> valid_trans s CANCELED = true.
-Proof. destruct s; vm_compute; intros H; try reflexivity; discriminate. Qed.
-
-Lemma op_to_end_cancel o : is_end_status (o_st (fst (op_to o CANCELED))) = true.
-Proof.
-  destruct (is_end_status (o_st o)) eqn:E.
-  - destruct (op_to_status o CANCELED) as [H|[_ H]]; rewrite H; [exact E|reflexivity].
-  - unfold op_to. rewrite (not_end_cancel _ E). reflexivity.
-Qed.
-
 (* bury ends the operator it buries *)
 Lemma bury_ended c id o : get_op c id = Some o -> ended (bury c id) id.
 Proof.
